@@ -34,6 +34,18 @@ pub struct Trace {
     /// guarantee applies to the corrupted bytes as they are.
     #[serde(default)]
     pub corrupt: Option<(usize, usize, u8)>,
+    /// faults that make the input ill-bracketed or ungrammatical: the loader should reject it; if it accepts,
+    /// conservation (no instruction dropped, duplicated, invented or re-encoded differently) still applies
+    #[serde(default)]
+    pub extra: Vec<Extra>,
+}
+
+#[derive(Clone, Debug, Serialize, Deserialize)]
+pub enum Extra {
+    /// a stray instruction inserted at this position of the stream
+    Stray(usize, MInst),
+    /// word `1` of instruction `0` overwritten (an undeclared enumerant / mask bit)
+    Word(usize, usize, u32),
 }
 
 /// word index and byte shift of byte `b` of the first string operand of `i` (relative to the instruction start)
@@ -58,6 +70,55 @@ fn string_byte_pos(i: &MInst, b: usize) -> Option<(usize, u32)> {
 pub struct C01;
 
 impl Trace {
+    fn with_extra(mut self, rng: &mut Rng) -> Trace {
+        let s = snap();
+        if !rng.chance(1, 8) || self.stream.insts.is_empty() {
+            return self;
+        }
+        if rng.chance(1, 2) {
+            // stray structural instruction, biased to module level (front / back) and bracket boundaries
+            let op = *rng.pick(&["FunctionEnd", "FunctionEnd", "Label", "Return", "FunctionParameter", "Function", "Unreachable", "Nop", "IAdd"]);
+            let g = s.inst_named(op);
+            let mut cfg = ProdCfg::parser_default(rng);
+            cfg.max_variadic = 1;
+            let mut gen = crate::producer::Gen::new(rng, cfg);
+            gen.next_id = self.stream.header.bound + 30;
+            let inst = gen.inst(g.opcode);
+            let n = self.stream.insts.len();
+            let at = match gen.rng.below(4) {
+                0 => 0,
+                1 => n,
+                _ => gen.rng.usize_below(n + 1),
+            };
+            self.extra.push(Extra::Stray(at, inst));
+        } else {
+            // an undeclared number in an enumerant / mask operand of some instruction
+            let mut cands: Vec<(usize, usize, u32)> = vec![];
+            for (j, i) in self.stream.insts.iter().enumerate() {
+                let mut w = 1 + i.rtype.is_some() as usize + i.rid.is_some() as usize;
+                for o in &i.ops {
+                    match o {
+                        MOp::W(k, _) => {
+                            if let Some(e) = s.enums.get(k) {
+                                cands.push((j, w, *e.numbers.last().unwrap() + 1));
+                            } else if let Some(m) = s.masks.get(k) {
+                                cands.push((j, w, !m.all));
+                            }
+                            w += 1;
+                        }
+                        MOp::L64(_) => w += 2,
+                        MOp::S(st) => w += string_words(st),
+                    }
+                }
+            }
+            if !cands.is_empty() {
+                let (j, w, v) = *rng.pick(&cands);
+                let v = if rng.chance(1, 2) { v } else { v.wrapping_add(rng.below(1000) as u32) };
+                self.extra.push(Extra::Word(j, w, v));
+            }
+        }
+        self
+    }
     fn with_corruption(mut self, rng: &mut Rng) -> Trace {
         if rng.chance(1, 10) {
             let with_str: Vec<usize> = self.stream.insts.iter().enumerate().filter(|(_, i)| i.ops.iter().any(|o| matches!(o, MOp::S(s) if !s.is_empty()))).map(|(k, _)| k).collect();
@@ -219,8 +280,10 @@ impl Property for C01 {
             version_spare: if rng.chance(1, 3) { (rng.below(256) as u8, rng.below(256) as u8) } else { (0, 0) },
             words_entry: rng.chance(1, 2),
             corrupt: None,
+            extra: vec![],
         }
         .with_corruption(rng)
+        .with_extra(rng)
     }
 
     fn execute(t: &Trace, cov: &mut Cov) -> RunOut {
@@ -236,9 +299,38 @@ impl Property for C01 {
         let mut words: Vec<u32> = vec![MAGIC, version_in, t.stream.header.generator, t.stream.header.bound, t.stream.header.schema];
         let mut mask_in = vec![!0u32; 5];
         let mut pad = t.pad_seed;
-        for i in &t.stream.insts {
-            encode_with_mask(i, &mut pad, &mut words, &mut mask_in);
+        // the stream as the medium delivers it: stray instructions inserted (string corruption and word
+        // corruption are applied further down / here by original instruction index)
+        let mut delivered: Vec<(MInst, Option<(usize, u32)>)> = t.stream.insts.iter().map(|i| (i.clone(), None)).collect();
+        for e in &t.extra {
+            if let Extra::Word(j, w, v) = e {
+                if let Some(d) = delivered.get_mut(*j) {
+                    d.1 = Some((*w, *v));
+                }
+            }
         }
+        let mut stray_shift: Vec<usize> = vec![];
+        for e in &t.extra {
+            if let Extra::Stray(at, inst) = e {
+                let at = (*at).min(delivered.len());
+                delivered.insert(at, (inst.clone(), None));
+                stray_shift.push(at);
+                cov.hit("fault.stray_instruction_inserted");
+            }
+        }
+        let mut frame_starts: Vec<usize> = vec![];
+        for (i, patch) in &delivered {
+            let st = words.len();
+            frame_starts.push(st);
+            encode_with_mask(i, &mut pad, &mut words, &mut mask_in);
+            if let Some((w, v)) = patch {
+                if st + w < words.len() {
+                    words[st + w] = *v;
+                    cov.hit("fault.enumerant_word_corrupted");
+                }
+            }
+        }
+        let has_extra = !t.extra.is_empty();
         if t.pad_seed.is_some() {
             cov.hit("fault.string_padding_randomised");
         }
@@ -251,9 +343,10 @@ impl Property for C01 {
         if let Some((j, b, v)) = t.corrupt {
             if let Some(inst) = t.stream.insts.get(j) {
                 if let Some((w, sh)) = string_byte_pos(inst, b) {
-                    let start = 5 + t.stream.insts[..j].iter().map(inst_words).sum::<usize>();
+                    let shifted = j + stray_shift.iter().filter(|at| **at <= j).count();
+                    let start = frame_starts[shifted.min(frame_starts.len() - 1)];
                     words[start + w] = (words[start + w] & !(0xFF << sh)) | ((v as u32) << sh);
-                    corrupt_at = Some((j, w, sh, v as u32));
+                    corrupt_at = Some((shifted, w, sh, v as u32));
                     cov.hit("fault.string_byte_corrupted");
                 }
             }
@@ -270,26 +363,75 @@ impl Property for C01 {
         };
         let mk = |c: &str, locus: String, step: usize, d: String| Some(Violation::new(&format!("C01.{}", c), locus, step, d));
 
+
+        // ---- weak lane: inputs that are not grammar-valid / well-bracketed. The loader should reject them; if it
+        // accepts one anyway, the guarantee still says: exactly the input's instructions come back.
+        let weak_lane = |why: &'static str, cov: &mut Cov, h: &AbsHash| -> RunOut {
+            cov.hit(why);
+            let gb = GuardedBuf::new(&bytes, true);
+            let module = match guarded(|| dr::load_bytes(gb.bytes())) {
+                Ok(Ok(m)) => m,
+                _ => return out(None, h), // rejected (or panicked: C04's clause)
+            };
+            cov.hit("reached.ungrammatical_input_accepted");
+            let asm = match guarded(|| module.assemble()) {
+                Ok(w) => w,
+                Err(pi) => return out(mk("panic", format!("stage=assemble {}", pi.locus()), 1, pi.detail()), h),
+            };
+            // frame both sides by word count
+            let frame = |w: &[u32]| -> Option<Vec<(usize, usize)>> {
+                let mut v = vec![];
+                let mut p = 5;
+                while p < w.len() {
+                    let wc = (w[p] >> 16) as usize;
+                    if wc == 0 || p + wc > w.len() {
+                        return None;
+                    }
+                    v.push((p, p + wc));
+                    p += wc;
+                }
+                Some(v)
+            };
+            let (Some(fi), Some(fo)) = (frame(&words), frame(&asm)) else { return out(None, h) };
+            let mut used = vec![false; fo.len()];
+            for (a0, a1) in &fi {
+                let hit = fo.iter().enumerate().position(|(k, (b0, b1))| !used[k] && b1 - b0 == a1 - a0 && (0..a1 - a0).all(|x| (words[a0 + x] ^ asm[b0 + x]) & mask_in[a0 + x] == 0));
+                match hit {
+                    Some(k) => used[k] = true,
+                    None => {
+                        let op = (words[*a0] & 0xffff) as u16;
+                        let name = s.inst(op).map(|g| g.name.clone()).unwrap_or_else(|| format!("#{}", op));
+                        return out(
+                            mk("conservation.dropped-or-changed", format!("op={} accepted-ungrammatical", name), 5, format!("the loader accepted the input although the reference rejects it; input instruction Op{} {:x?} does not come back with the same words ({} instructions in, {} out)", name, &words[*a0..*a1], fi.len(), fo.len())),
+                            h,
+                        );
+                    }
+                }
+            }
+            if let Some(k) = used.iter().position(|u| !u) {
+                let op = (asm[fo[k].0] & 0xffff) as u16;
+                return out(mk("conservation.invented", format!("op={} accepted-ungrammatical", s.inst(op).map(|g| g.name.clone()).unwrap_or_default()), 5, format!("output instruction {:x?} has no counterpart in the input", &asm[fo[k].0..fo[k].1])), h);
+            }
+            out(None, h)
+        };
         // the producer stream must be grammar-valid; the reference automaton gives the expected module
         // "the input's instructions" are what the REFERENCE acceptor reads from the bytes (a reordering may
         // have moved a literal in front of the declaration that sized it in the producer's mind)
         let input = accept(&clean_bytes);
         if input.outcome != Outcome::Accept {
-            cov.hit("skipped.not_grammar_valid");
-            return out(None, &h);
+            return weak_lane("skipped.not_grammar_valid", cov, &h);
         }
         let input_insts: &Vec<MInst> = &input.insts;
         let mut a = Automaton::new();
         for i in input_insts {
             if a.step(i).is_err() {
-                cov.hit("skipped.ill_bracketed");
-                return out(None, &h);
+                return weak_lane("skipped.ill_bracketed", cov, &h);
             }
         }
         if a.finish().is_err() {
-            cov.hit("skipped.ill_bracketed");
-            return out(None, &h);
+            return weak_lane("skipped.ill_bracketed", cov, &h);
         }
+        let _ = has_extra;
         if a.unconstrained || a.module.memory_models_seen > 1 {
             cov.hit("skipped.outside_guarantee");
             return out(None, &h);
@@ -465,6 +607,11 @@ impl Property for C01 {
         if t.corrupt.is_some() {
             let mut c = t.clone();
             c.corrupt = None;
+            out.push(c);
+        }
+        for k in 0..t.extra.len() {
+            let mut c = t.clone();
+            c.extra.remove(k);
             out.push(c);
         }
         let n = t.stream.insts.len();
